@@ -1834,6 +1834,14 @@ def c11(tier):
         behs = mt_generate(rep, max(4, num // 2), 30, SEED * 23 + j, rc="rc" in vs, fine=False, shapes="ShapesWide",
                            maxids=14, maxcommits=10, maxlocks=5, maxdefers=4, nt=3, nv=2)
         generic_replay(rep, "mtree-replay", behs, {"seed": SEED + 60 + j, "variant": var}, "c11c_%d" % j, "mtree-replay")
+    # situations that need ten specific steps in a row are enumerated by TLC from a script (MCMultiTree.tla ScriptSpec):
+    # two dereferences of a counted tree queued, one processed, then an insertion under the reader lock that links
+    # its nodes - the remaining dereference must still be deferred
+    sb = mt_scripted(rep, "ScriptTwoDerefs", limit=60 if thorough else 20, rc=True, fine=False, shapes="ShapesSmall", maxids=8,
+                     maxcommits=6, maxlocks=2, maxdefers=3, nt=2, nv=1)
+    sb = [b for b in sb if not any(o.get("conflict") for o in b["obs"])]
+    rep.extra["scripted_behaviours"] = len(sb)
+    generic_replay(rep, "mtree-replay", sb, {"seed": SEED + 70, "variant": "rc"}, "c11s", "mtree-replay")
     # implementation -> specification (random driver with reader threads; deferrals come from the hook events)
     tot_defers = 0
     for j, var in enumerate(["", "rc"] + (["direct", "", "rc", "big"] if thorough else [])):
